@@ -72,54 +72,68 @@ theorem iter_head_sim {δ : Type} (S : SigScheme) (H : Bytes → Bytes) (g : Gen
 
 /-- what one iteration leaves: the fault-injection queue advanced, the socket counter advanced and the outcome
     recorded, the statistics event appended -/
-def stepState (ok : Addr → Nat → Bool) (r : Responder) (idx : Nat) (gs : List Grease) (out : List (Option Sent))
+def stepState (ok : Addr → Nat → Bool) (n0 : Nat) (inq : List (Bytes × Addr)) (clk : Nat → Rs.Time) (r : Responder)
+    (idx : Nat) (gs : List Grease) (out : List (Option Sent))
     (stats : List Event) (p : Option Sent × Event) : Rs.Step (Gen.Responder × Gen.Sock × List Event) :=
-  Rs.Step.next (toGenResponder r ⟨gs.tail, gs.headD Grease.none⟩, ⟨ok, idx + 1, out ++ [p.1]⟩, stats ++ [p.2])
+  Rs.Step.next (toGenResponder r ⟨gs.tail, gs.headD Grease.none⟩, ⟨ok, n0 + (idx + 1), out ++ [p.1], inq, clk⟩,
+    stats ++ [p.2])
 
-/-- observables of the loop state -/
-def obsLoop (x : Gen.Responder × Gen.Sock × List Event) :
-    Version × Gen.OnlineKey × Bytes × List (Bytes × Nat) × Gen.MerkleTree × List Grease × List (Option Sent) × Nat × List Event :=
-  (x.1.version, x.1.online_key, x.1.cert_bytes, x.1.requests, x.1.merkle, x.1.grease.pending, x.2.1.out, x.2.1.n, x.2.2)
+/-- the decision last drawn after `n` more draws from the queue `⟨gs, cur⟩` -/
+def curAfter (gs : List Grease) (cur : Grease) : Nat → Grease
+  | 0 => cur
+  | k + 1 => (gs.drop k).headD Grease.none
 
-theorem loop_sim (ok : Addr → Nat → Bool) (r : Responder) (debug : Bool) (srep : Msg)
+theorem curAfter_step (gs : List Grease) (cur : Grease) (k : Nat) :
+    curAfter gs.tail (gs.headD Grease.none) k = curAfter gs cur (k + 1) := by
+  cases k with
+  | zero => rfl
+  | succ j => cases gs <;> simp [curAfter]
+
+theorem Sim.map_congr {α β} {r s : Res α} (h : r ≃ᵣ s) (f : α → β) : r.map f ≃ᵣ s.map f := by
+  cases r <;> cases s <;> simp_all [Res.Sim, Res.map]
+
+/-- the loop, exact final state -/
+theorem loop_sim (ok : Addr → Nat → Bool) (n0 : Nat) (inq : List (Bytes × Addr)) (clk : Nat → Rs.Time)
+    (r : Responder) (debug : Bool) (srep : Msg)
     (body : Nat × Bytes × Addr → Gen.Responder × Gen.Sock × List Event →
       Res (Rs.Step (Gen.Responder × Gen.Sock × List Event)))
     (hbody : ∀ idx nonce src gs cur out stats,
-      body (idx, nonce, src) (toGenResponder r ⟨gs, cur⟩, ⟨ok, idx, out⟩, stats) ≃ᵣ
-        (Responder.respondOneF ok r debug srep idx nonce src (gs.headD Grease.none)).map
-          (stepState ok r idx gs out stats)) :
+      body (idx, nonce, src) (toGenResponder r ⟨gs, cur⟩, ⟨ok, n0 + idx, out, inq, clk⟩, stats) ≃ᵣ
+        (Responder.respondOneF (fun a k => ok a (n0 + k)) r debug srep idx nonce src (gs.headD Grease.none)).map
+          (stepState ok n0 inq clk r idx gs out stats)) :
     ∀ (rest : List (Bytes × Addr)) (idx : Nat) (gs : List Grease) (cur : Grease) (out : List (Option Sent))
       (stats : List Event),
-      (Rs.forList ((List.range' idx rest.length).zip rest) (toGenResponder r ⟨gs, cur⟩, ⟨ok, idx, out⟩, stats) body).map
-          obsLoop
-        ≃ᵣ (Responder.respondAllF ok r debug srep idx rest gs).map fun p =>
-            (r.ver, (⟨r.onl, Version.supportedWire⟩ : Gen.OnlineKey), r.cert, r.requests, toGenTree r.ver r.tree,
-              gs.drop rest.length, out ++ p.1, idx + rest.length, stats ++ p.2) := by
+      Rs.forList ((List.range' idx rest.length).zip rest)
+          (toGenResponder r ⟨gs, cur⟩, ⟨ok, n0 + idx, out, inq, clk⟩, stats) body
+        ≃ᵣ (Responder.respondAllF (fun a k => ok a (n0 + k)) r debug srep idx rest gs).map fun p =>
+            (toGenResponder r ⟨gs.drop rest.length, curAfter gs cur rest.length⟩,
+              (⟨ok, n0 + (idx + rest.length), out ++ p.1, inq, clk⟩ : Gen.Sock), stats ++ p.2) := by
   intro rest
   induction rest with
   | nil =>
     intro idx gs cur out stats
-    simp [Responder.respondAllF, obsLoop, toGenResponder]
+    simp [Responder.respondAllF, curAfter, Res.map, Res.Sim]
   | cons x rest ih =>
     intro idx gs cur out stats
     obtain ⟨nonce, src⟩ := x
     have hb := hbody idx nonce src gs cur out stats
     simp only [List.length_cons, List.range'_succ, List.zip_cons_cons, Rs.forList_cons, Responder.respondAllF]
-    cases h1 : Responder.respondOneF ok r debug srep idx nonce src (gs.headD Grease.none) with
+    cases h1 : Responder.respondOneF (fun a k => ok a (n0 + k)) r debug srep idx nonce src (gs.headD Grease.none) with
     | ok p =>
       rw [h1] at hb
-      cases h2 : body (idx, nonce, src) (toGenResponder r ⟨gs, cur⟩, ⟨ok, idx, out⟩, stats) with
+      cases h2 : body (idx, nonce, src) (toGenResponder r ⟨gs, cur⟩, ⟨ok, n0 + idx, out, inq, clk⟩, stats) with
       | ok st =>
         rw [h2] at hb
-        have e : st = stepState ok r idx gs out stats p := hb
+        have e : st = stepState ok n0 inq clk r idx gs out stats p := hb
         subst e
         simp only [stepState, bind_ok_s]
         have := ih (idx + 1) gs.tail (gs.headD Grease.none) (out ++ [p.1]) (stats ++ [p.2])
         refine Res.Sim.trans this ?_
-        cases Responder.respondAllF ok r debug srep (idx + 1) rest gs.tail with
+        cases Responder.respondAllF (fun a k => ok a (n0 + k)) r debug srep (idx + 1) rest gs.tail with
         | ok q =>
           obtain ⟨ss, es⟩ := q
           obtain ⟨s, e⟩ := p
+          rw [← curAfter_step gs cur rest.length]
           simp [Res.bind, Res.map, Res.Sim, Nat.add_assoc, Nat.add_comm 1]
         | err => trivial
         | panic s => trivial
@@ -127,13 +141,13 @@ theorem loop_sim (ok : Addr → Nat → Bool) (r : Responder) (debug : Bool) (sr
       | panic s => rw [h2] at hb; exact hb.elim
     | err =>
       rw [h1] at hb
-      cases h2 : body (idx, nonce, src) (toGenResponder r ⟨gs, cur⟩, ⟨ok, idx, out⟩, stats) with
+      cases h2 : body (idx, nonce, src) (toGenResponder r ⟨gs, cur⟩, ⟨ok, n0 + idx, out, inq, clk⟩, stats) with
       | ok st => rw [h2] at hb; exact hb.elim
       | err => trivial
       | panic s => rw [h2] at hb; exact hb.elim
     | panic s =>
       rw [h1] at hb
-      cases h2 : body (idx, nonce, src) (toGenResponder r ⟨gs, cur⟩, ⟨ok, idx, out⟩, stats) with
+      cases h2 : body (idx, nonce, src) (toGenResponder r ⟨gs, cur⟩, ⟨ok, n0 + idx, out, inq, clk⟩, stats) with
       | ok st => rw [h2] at hb; exact hb.elim
       | err => rw [h2] at hb; exact hb.elim
       | panic s => trivial
@@ -141,30 +155,34 @@ theorem loop_sim (ok : Addr → Nat → Bool) (r : Responder) (debug : Bool) (sr
 theorem bind_ok_map {α β} (r : Res α) (f : α → β) : (r.bind fun a => Res.map f (Res.ok a)) = r.map f := by
   cases r <;> rfl
 
-/-- the loop as it appears in `send_responses` (from index 0, nothing sent yet), with the final repacking -/
-theorem loop_sim' (ok : Addr → Nat → Bool) (r : Responder) (debug : Bool) (srep : Msg)
+/-- the loop as it appears in `send_responses` (from index 0, socket as found), with the final repacking -/
+theorem loop_sim' (sock : Gen.Sock) (r : Responder) (debug : Bool) (srep : Msg)
     (body : Nat × Bytes × Addr → Gen.Responder × Gen.Sock × List Event →
       Res (Rs.Step (Gen.Responder × Gen.Sock × List Event)))
     (hbody : ∀ idx nonce src gs cur out stats,
-      body (idx, nonce, src) (toGenResponder r ⟨gs, cur⟩, ⟨ok, idx, out⟩, stats) ≃ᵣ
-        (Responder.respondOneF ok r debug srep idx nonce src (gs.headD Grease.none)).map
-          (stepState ok r idx gs out stats))
+      body (idx, nonce, src) (toGenResponder r ⟨gs, cur⟩, ⟨sock.ok, sock.n + idx, out, sock.inq, sock.clock⟩, stats) ≃ᵣ
+        (Responder.respondOneF (fun a k => sock.ok a (sock.n + k)) r debug srep idx nonce src (gs.headD Grease.none)).map
+          (stepState sock.ok sock.n sock.inq sock.clock r idx gs out stats))
     (reqs : List (Bytes × Addr)) (gs : List Grease) (cur : Grease) (ev0 : List Event)
-    (st : Gen.Responder × Gen.Sock × List Event) (hst : st = (toGenResponder r ⟨gs, cur⟩, ⟨ok, 0, []⟩, ev0))
-    (f : Gen.Responder × Gen.Sock × List Event → Res _) (hf : ∀ a, f a = .ok (obsLoop a))
+    (st : Gen.Responder × Gen.Sock × List Event) (hst : st = (toGenResponder r ⟨gs, cur⟩, sock, ev0))
+    (f : Gen.Responder × Gen.Sock × List Event → Res _) (hf : ∀ a, f a = .ok a)
     (g : List (Option Sent) × List Event → Res _)
-    (hg : ∀ p, g p = .ok (r.ver, (⟨r.onl, Version.supportedWire⟩ : Gen.OnlineKey), r.cert, r.requests,
-      toGenTree r.ver r.tree, gs.drop reqs.length, p.1, reqs.length, ev0 ++ p.2)) :
-    (Rs.forList (Rs.enumerate reqs) st body).bind f ≃ᵣ (Responder.respondAllF ok r debug srep 0 reqs gs).bind g := by
+    (hg : ∀ p, g p = .ok (toGenResponder r ⟨gs.drop reqs.length, curAfter gs cur reqs.length⟩,
+      ({ sock with n := sock.n + reqs.length, out := sock.out ++ p.1 } : Gen.Sock), ev0 ++ p.2)) :
+    (Rs.forList (Rs.enumerate reqs) st body).bind f ≃ᵣ
+      (Responder.respondAllF (fun a k => sock.ok a (sock.n + k)) r debug srep 0 reqs gs).bind g := by
   subst hst
-  have h := loop_sim ok r debug srep body hbody reqs 0 gs cur [] ev0
+  have h := loop_sim sock.ok sock.n sock.inq sock.clock r debug srep body hbody reqs 0 gs cur sock.out ev0
   rw [enumerate_eq_range']
-  have e1 : f = fun a => Res.ok (obsLoop a) := funext hf
-  have e2 : g = fun p => Res.ok (r.ver, (⟨r.onl, Version.supportedWire⟩ : Gen.OnlineKey), r.cert, r.requests,
-      toGenTree r.ver r.tree, gs.drop reqs.length, p.1, reqs.length, ev0 ++ p.2) := funext hg
+  have e1 : f = fun a => Res.ok a := funext hf
+  have e2 : g = fun p => Res.ok (toGenResponder r ⟨gs.drop reqs.length, curAfter gs cur reqs.length⟩,
+      ({ sock with n := sock.n + reqs.length, out := sock.out ++ p.1 } : Gen.Sock), ev0 ++ p.2) :=
+    funext hg
   rw [e1, e2]
-  cases h1 : Rs.forList ((List.range' 0 reqs.length).zip reqs) (toGenResponder r ⟨gs, cur⟩, ⟨ok, 0, []⟩, ev0) body <;>
-    cases h2 : Responder.respondAllF ok r debug srep 0 reqs gs <;>
+  have es : (⟨sock.ok, sock.n + 0, sock.out, sock.inq, sock.clock⟩ : Gen.Sock) = sock := rfl
+  rw [es] at h
+  cases h1 : Rs.forList ((List.range' 0 reqs.length).zip reqs) (toGenResponder r ⟨gs, cur⟩, sock, ev0) body <;>
+    cases h2 : Responder.respondAllF (fun a k => sock.ok a (sock.n + k)) r debug srep 0 reqs gs <;>
     rw [h1, h2] at h <;> simp_all [Res.Sim, Res.map, Res.bind]
 
 end Bridge
